@@ -250,7 +250,7 @@ pub fn run(thorough: bool) -> Outcome {
     // n-partitions of the minimal hello (reader + packets)
     let (name, b, rec_len, is_hello) = &ss[0];
     let exp = reference_obs(b, *rec_len, *is_hello);
-    let maxk = if thorough { 5 } else { 3 };
+    let maxk = if thorough { 6 } else { 3 };
     for k in 3..=maxk {
         let firsts: Vec<usize> = (5..b.len()).collect();
         let rep = par_slices(firsts.len(), firsts.len(), |rg| {
